@@ -89,6 +89,7 @@ func runFixtures(names []string) (fails []string) {
 		"regex":      fxRegex,
 		"table":      fxTable,
 		"lockleak":   fxLockLeak,
+		"strshape":   fxStrShape,
 	}
 	if names == nil {
 		for n := range all {
@@ -354,6 +355,47 @@ func fxTable(P *Program) (fails []string) {
 	}
 	if _, ok := r.idAt(9, 30); ok {
 		fails = append(fails, "idAt(9) defined before the first mapping")
+	}
+	return
+}
+
+func fxStrShape(P *Program) (fails []string) {
+	fs, e := need(P, "cutGood", "cutBad", "joinBuilder", "joinLiteral", "joinConditional")
+	if e != nil {
+		return e
+	}
+	last := func(f *ssa.Function) *ssa.Return {
+		var r *ssa.Return
+		for _, x := range returnsOf(f) {
+			r = x
+		}
+		return r
+	}
+	src, steps := strChain(retVal(last(fs[0]), 0), 2)
+	if strip(src) != ssa.Value(fs[0].Params[0]) || !hasStep(steps, "cut", "\x00") || !hasStep(steps, "cut", "///") || !hasStep(steps, "trim", ".") {
+		fails = append(fails, fmt.Sprintf("cutGood is not read as trim(.)∘cut(///)∘cut(NUL) of its parameter: %v", steps))
+	}
+	src, steps = strChain(retVal(last(fs[1]), 0), 2)
+	if strip(src) == ssa.Value(fs[1].Params[0]) && hasStep(steps, "cut", "\x00") {
+		fails = append(fails, "cutBad (keeps part [1]) is read as a prefix cut")
+	}
+	classify := func(v ssa.Value) string {
+		if s, ok := constString(v); ok {
+			return fmt.Sprintf("%q", s)
+		}
+		if p, ok := strip(v).(*ssa.Parameter); ok {
+			return p.Name()
+		}
+		return "?"
+	}
+	for _, f := range fs[2:4] {
+		k, ok := strKinds(retVal(last(f), 0), classify, 3)
+		if got := strings.Join(k, " "); !ok || got != `a "\x00" b` {
+			fails = append(fails, fmt.Sprintf("%s is not read as a NUL b: %q fixed=%v", f.Name(), got, ok))
+		}
+	}
+	if _, ok := strKinds(retVal(last(fs[4]), 0), classify, 3); ok {
+		fails = append(fails, "joinConditional (a conditional write) is read as a fixed sequence")
 	}
 	return
 }
